@@ -184,27 +184,17 @@ func (g *gen) stubs(ix *astIndex, outDir string) {
 	eb.WriteString("// Code generated by verif/tools/cmd/extract. DO NOT EDIT.\n\npackage stubs\n\n// accepted values of the registered enum validators, read from their isValid switches\nvar enumTags = map[string][]string{\n")
 	regs := g.registrations(ix)
 	seen := map[string]bool{}
+	var declAll []string
 	for _, r := range regs {
 		if seen[r.tag] {
 			continue
 		}
 		seen[r.tag] = true
-		p := ix.pkgs[r.pkg]
-		fn := r.fn
-		pp := p
-		if strings.HasPrefix(fn, "types.") {
-			fn = strings.TrimPrefix(fn, "types.")
-			for _, f := range p.files {
-				if rel, ok := g.importsOf(f)["types"]; ok {
-					pp = ix.pkgs[rel]
-				}
-			}
-		}
-		vals, _, ok := g.acceptedOf(ix, pp, fn)
-		if !ok {
+		vals, _, declared, ok, use := g.enumRow(ix, r)
+		if !ok || !use {
 			continue
 		}
-		sort.Strings(vals)
+		declAll = append(declAll, declared...)
 		eb.WriteString(fmt.Sprintf("\t%q: {", r.tag))
 		for i, v := range vals {
 			if i > 0 {
@@ -213,6 +203,14 @@ func (g *gen) stubs(ix *astIndex, outDir string) {
 			eb.WriteString(fmt.Sprintf("%q", v))
 		}
 		eb.WriteString("},\n")
+	}
+	eb.WriteString("}\n\n// every declared (exported) constant value of the enumeration types\nvar enumDeclared = []string{")
+	sort.Strings(declAll)
+	for i, v := range declAll {
+		if i > 0 && declAll[i-1] == v {
+			continue
+		}
+		eb.WriteString(fmt.Sprintf("%q, ", v))
 	}
 	eb.WriteString("}\n")
 	writeIfChangedPath(filepath.Join(outDir, "gen_enums.go"), eb.String())
